@@ -1,14 +1,431 @@
-//! C18 - send_transaction / relay (workload added later); always-success cell helper.
-use ckb_types::{bytes::Bytes, core::{Capacity, ScriptHashType}, packed::{CellOutput, Script}, prelude::*};
+//! C18 - send_transaction admits only verifiable transactions; relays once per peer.
+
+use std::collections::{HashMap, HashSet, VecDeque};
+
+use ckb_network::{bytes::Bytes as P2pBytes, multiaddr::MultiAddr, CKBProtocolHandler, Peer, PeerId, PeerIndex, SessionType};
+use ckb_types::{
+    bytes::Bytes,
+    core::{Capacity, DepType, ScriptHashType, TransactionBuilder, TransactionView},
+    packed::{self, Byte32, CellDep, CellInput, CellOutput, OutPoint, Script},
+    prelude::*,
+    H256,
+};
+use serde_json::{json, Value};
+
+use crate::service::{ChainRpc, TransactionRpc};
+
+use super::super::chain::{Chain, DiffMode, PowKind};
+use super::super::net::P;
+use super::super::out::{hex, Out, RunCfg};
+use super::super::refidx::{self, ST};
+use super::super::rng::Rng;
+use super::super::util::{guarded, Unwound};
+use super::super::world::{NoHook, World};
+use super::common::*;
 
 pub fn always_success_cell() -> (CellOutput, Bytes, Script) {
     let data: Bytes = Bytes::from(crate::tests::ALWAYS_SUCCESS_BIN.to_vec());
-    let cell = CellOutput::new_builder()
-        .capacity(Capacity::bytes(data.len() + 200).unwrap().pack())
-        .build();
-    let script = Script::new_builder()
-        .hash_type(ScriptHashType::Data.into())
-        .code_hash(CellOutput::calc_data_hash(&data))
-        .build();
+    let cell = CellOutput::new_builder().capacity(Capacity::bytes(data.len() + 200).unwrap().pack()).build();
+    let script = Script::new_builder().hash_type(ScriptHashType::Data.into()).code_hash(CellOutput::calc_data_hash(&data)).build();
     (cell, data, script)
+}
+
+#[derive(Clone)]
+struct Spendable {
+    op: OutPoint,
+    capacity: u64,
+    mature: bool,
+}
+
+pub fn run(cfg: &RunCfg, out: &Out) {
+    for k in 0..cfg.budget {
+        if out.time_up() {
+            break;
+        }
+        if let Some(only) = cfg.only_scenario {
+            if k != only {
+                continue;
+            }
+        }
+        scenario(cfg.scenario_seed(k), k, out);
+    }
+}
+
+fn base_tx(rng: &mut Rng, pool: &mut Vec<Spendable>, dep: &CellDep, lock: &Script, n_in: usize) -> Option<(TransactionView, u64, bool)> {
+    if pool.len() < n_in {
+        return None;
+    }
+    let mut b = TransactionBuilder::default().cell_dep(dep.clone());
+    let mut total = 0u64;
+    let mut mature = true;
+    for _ in 0..n_in {
+        let i = rng.pick_idx(pool.len());
+        let s = pool.remove(i);
+        total += s.capacity;
+        mature &= s.mature;
+        b = b.input(CellInput::new(s.op, 0));
+    }
+    let fee = 1000 + rng.below(1000);
+    let occupied = 41_0000_0000u64;
+    let mut n_out = rng.range(1, 2);
+    if (total - fee) / n_out < occupied {
+        n_out = 1;
+    }
+    let each = (total - fee) / n_out;
+    if each < occupied {
+        return None;
+    }
+    for _ in 0..n_out {
+        b = b.output(CellOutput::new_builder().capacity(Capacity::shannons(each).pack()).lock(lock.clone()).build()).output_data(Bytes::new().pack());
+    }
+    Some((b.build(), each, mature))
+}
+
+fn mutate_tx(rng: &mut Rng, tx: &TransactionView, chain: &Chain, tip: u64) -> (TransactionView, &'static str) {
+    match rng.below(10) {
+        0 => {
+            // outputs exceed inputs
+            let outs: Vec<CellOutput> = tx.outputs().into_iter().collect();
+            let cap: u64 = outs[0].capacity().unpack();
+            let mut o2 = outs.clone();
+            o2[0] = outs[0].clone().as_builder().capacity(Capacity::shannons(cap + 100_0000_0000_0000).pack()).build();
+            (tx.as_advanced_builder().set_outputs(o2).build(), "capacity-overflow")
+        }
+        1 => {
+            let inp: Vec<CellInput> = tx.inputs().into_iter().collect();
+            let mut i2 = inp.clone();
+            i2.push(inp[0].clone());
+            (tx.as_advanced_builder().set_inputs(i2).build(), "duplicated-input")
+        }
+        2 => {
+            let mut i2: Vec<CellInput> = tx.inputs().into_iter().collect();
+            i2[0] = CellInput::new(OutPoint::new(Byte32::new(super::super::mutate::rand32(rng)), 0), 0);
+            (tx.as_advanced_builder().set_inputs(i2).build(), "unknown-input")
+        }
+        3 => {
+            let dep = CellDep::new_builder().out_point(OutPoint::new(Byte32::new(super::super::mutate::rand32(rng)), 0)).dep_type(DepType::Code.into()).build();
+            (tx.as_advanced_builder().set_cell_deps(vec![dep]).build(), "unknown-dep")
+        }
+        4 => {
+            // absolute block-number since in the future
+            let mut i2: Vec<CellInput> = tx.inputs().into_iter().collect();
+            i2[0] = CellInput::new(i2[0].previous_output(), tip + 1000);
+            (tx.as_advanced_builder().set_inputs(i2).build(), "since-immature")
+        }
+        5 => {
+            // output below its occupied capacity
+            let outs: Vec<CellOutput> = tx.outputs().into_iter().collect();
+            let mut o2 = outs.clone();
+            o2[0] = outs[0].clone().as_builder().capacity(Capacity::shannons(1000).pack()).build();
+            (tx.as_advanced_builder().set_outputs(o2).build(), "output-below-occupied")
+        }
+        6 => (tx.as_advanced_builder().set_cell_deps(vec![]).build(), "script-code-not-in-deps"),
+        7 => {
+            let deps: Vec<CellDep> = tx.cell_deps().into_iter().collect();
+            let mut d2 = deps.clone();
+            d2.push(deps[0].clone());
+            (tx.as_advanced_builder().set_cell_deps(d2).build(), "duplicated-dep")
+        }
+        8 => {
+            // an input locked by a script nobody deployed: spend a cellbase output of a chain that uses other locks? use a dep group pointing nowhere
+            let dep = CellDep::new_builder().out_point(tx.cell_deps().get(0).unwrap().out_point()).dep_type(DepType::DepGroup.into()).build();
+            (tx.as_advanced_builder().set_cell_deps(vec![dep]).build(), "dep-group-with-garbage-data")
+        }
+        _ => {
+            let _ = chain;
+            (tx.as_advanced_builder().set_outputs(vec![]).set_outputs_data(vec![]).build(), "no-outputs")
+        }
+    }
+}
+
+fn tx_status(w: &World, h: &Byte32) -> (String, Option<u64>) {
+    let hh: H256 = h.unpack();
+    let r = w.c().rpc_tx().get_transaction(hh).expect("get_transaction");
+    let v = serde_json::to_value(&r).unwrap();
+    (v["tx_status"]["status"].as_str().unwrap_or("").to_string(), v["cycles"].as_str().map(|s| u64::from_str_radix(s.trim_start_matches("0x"), 16).unwrap_or(0)))
+}
+
+fn scenario(seed: u64, k: u64, out: &Out) {
+    let mut rng = Rng::new(seed);
+    let (now, base_ts) = time_base();
+    let mut params = gen_params(&mut rng, seed, base_ts);
+    params.always_success = true;
+    params.pow = PowKind::Dummy;
+    params.diff_mode = DiffMode::Fixed;
+    params.tx_density = *rng.pick(&[0, 30, 60]);
+    params.n_types = 0;
+    let len = rng.range(40, 110);
+    let mut ccfg = gen_ccfg(&mut rng);
+    ccfg.cp_interval = 2000;
+    let main = Chain::generate(params, len);
+    let (_, _, lock) = always_success_cell();
+    let mut w = World::new(main, ccfg, seed, now);
+    let net = HonestNet::new(0);
+    w.add_peer(0, true);
+    set_scripts(&w, &vec![(lock.clone(), ST::Lock, 0)], None);
+    w.connect_all();
+    let desc = json!({"seed": seed, "scenario": k, "len": len});
+    let mut conv = false;
+    for _ in 0..12 {
+        if w.run_until(&mut NoHook, 10, |w| w.converged_on(0)).is_some() {
+            conv = true;
+            break;
+        }
+        net.grow(&mut w, 1);
+    }
+    if !conv || w.dead {
+        out.count("setup_not_converged", 1);
+        w.close();
+        return;
+    }
+    let chain = w.chains[0].clone();
+    let tip = chain.tip();
+    let idx = refidx::build(&chain, tip);
+    let maturity = w.c().consensus.cellbase_maturity();
+    let tip_epoch = chain.blocks[tip as usize].epoch();
+    let mut pool: Vec<Spendable> = idx
+        .live
+        .get(&(ST::Lock, refidx::script_key(&lock)))
+        .map(|s| {
+            s.iter()
+                .filter(|c| c.block > 0)
+                .map(|c| Spendable {
+                    op: OutPoint::new(Byte32::from_slice(&refidx::unhex_json(&json!(format!("0x{}", c.tx_hash)))).unwrap(), c.index),
+                    capacity: c.capacity,
+                    mature: c.tx_index != 0 || {
+                        let cb = chain.blocks[c.block as usize].epoch().to_rational() + maturity.to_rational();
+                        cb <= tip_epoch.to_rational()
+                    },
+                })
+                .collect()
+        })
+        .unwrap_or_default();
+    let genesis_cb = chain.blocks[0].transactions()[0].hash();
+    let dep = CellDep::new_builder().out_point(OutPoint::new(genesis_cb, 3)).dep_type(DepType::Code.into()).build();
+    let relay_peers: Vec<PeerId> = (0..rng.range(1, 3)).map(|_| PeerId::random()).collect();
+    let mut sessions: Vec<Option<(PeerIndex, bool)>> = vec![None; relay_peers.len()];
+    let mut next_session = 0usize;
+    let mut active_v3: Option<bool> = None;
+    let mut model: VecDeque<(Byte32, u64)> = VecDeque::new(); // FIFO pool model (hash, cycles)
+    let mut rejected: Vec<Byte32> = vec![];
+    let mut evicted: Vec<Byte32> = vec![];
+    let mut announced: HashMap<(usize, Byte32), u32> = HashMap::new();
+    let long = rng.chance(1, 4);
+    let n_sub = rng.range(10, if long { 220 } else { 40 });
+    let mut violated = false;
+    for step in 0..n_sub {
+        if w.dead || violated {
+            break;
+        }
+        // a valid base transaction (sometimes spending the output of a pending one)
+        let n_in = rng.range(1, 2) as usize;
+        let (tx, each, mature) = match base_tx(&mut rng, &mut pool, &dep, &lock, n_in) {
+            Some(x) => x,
+            None => continue,
+        };
+        let mutate = rng.chance(2, 5);
+        let (tx, op, expect_ok) = if mutate {
+            let (t, op) = mutate_tx(&mut rng, &tx, &chain, tip);
+            (t, op, false)
+        } else if !mature {
+            (tx, "cellbase-immature", false)
+        } else {
+            (tx, "valid", true)
+        };
+        let jtx: ckb_jsonrpc_types::Transaction = tx.data().into();
+        let est = guarded(|| w.c().rpc_chain().estimate_cycles(jtx.clone()));
+        let sent = guarded(|| w.c().rpc_tx().send_transaction(jtx.clone()));
+        out.eval(2);
+        let (est, sent) = match (est, sent) {
+            (Ok(a), Ok(b)) => (a, b),
+            (a, b) => {
+                for r in [a.err(), b.err()].into_iter().flatten() {
+                    if let Unwound::Panic(p) = r {
+                        violated = true;
+                        out.violation("C18.R1", &p.signature("C18", op), json!({"scenario": desc, "operator": op, "panic": p.message, "at": p.location}), k);
+                    }
+                }
+                break;
+            }
+        };
+        let est_cycles: Option<u64> = est.as_ref().ok().map(|e| { let v = serde_json::to_value(e).unwrap(); u64::from_str_radix(v["cycles"].as_str().unwrap_or("0x0").trim_start_matches("0x"), 16).unwrap_or(0) });
+        out.cell(&format!("submit|{}|send={}|estimate={}", op, sent.is_ok(), est.is_ok()));
+        if sent.is_ok() != expect_ok || est.is_ok() != expect_ok {
+            violated = true;
+            out.violation("C18.R1", &format!("C18|verdict-differs-from-reference|{}|expected={}|send={}|estimate={}", op, expect_ok, sent.is_ok(), est.is_ok()),
+                json!({"scenario": desc, "operator": op, "send_error": sent.as_ref().err().map(|e| format!("{:?}", e).chars().take(300).collect::<String>()), "estimate_error": est.as_ref().err().map(|e| format!("{:?}", e).chars().take(300).collect::<String>())}), k);
+            break;
+        }
+        let h = tx.hash();
+        if expect_ok {
+            let cyc = est_cycles.unwrap_or(0);
+            model.push_back((h.clone(), cyc));
+            if model.len() > 64 {
+                // evicted: its outputs can no longer be resolved
+                let (gone, _) = model.pop_front().unwrap();
+                pool.retain(|sp| sp.op.tx_hash() != gone);
+                evicted.push(gone);
+            }
+            // its outputs are spendable by later (pending-chained) transactions
+            for (i, _) in tx.outputs().into_iter().enumerate() {
+                pool.push(Spendable { op: OutPoint::new(h.clone(), i as u32), capacity: each, mature: true });
+            }
+            let (st, cycles) = tx_status(&w, &h);
+            out.eval(1);
+            if st != "pending" || cycles != Some(cyc) {
+                violated = true;
+                out.violation("C18.R3", "C18|accepted-transaction-not-pending-or-cycles-differ", json!({"scenario": desc, "status": st, "cycles": cycles, "estimated": cyc}), k);
+            }
+        } else {
+            rejected.push(h.clone());
+            let (st, _) = tx_status(&w, &h);
+            out.eval(1);
+            if st != "unknown" {
+                violated = true;
+                out.violation("C18.R2", &format!("C18|rejected-transaction-visible|{}", op), json!({"scenario": desc, "status": st}), k);
+            }
+        }
+        // pool model: members pending, evicted ones unknown (oldest first)
+        if step % 7 == 6 || model.len() >= 64 {
+            out.eval(1);
+            let size = w.c().pending.read().map(|p| model.iter().filter(|(h, _)| p.get(h).is_some()).count()).unwrap_or(0);
+            if size != model.len() {
+                violated = true;
+                out.violation("C18.R3", "C18|pool-differs-from-fifo-model", json!({"scenario": desc, "model": model.len(), "present": size}), k);
+            }
+            out.cell(&format!("pool|{}", if model.len() >= 64 { "full" } else { "partial" }));
+            if let Some(g) = evicted.last() {
+                let (st, _) = tx_status(&w, g);
+                out.eval(1);
+                out.cell("pool|evicted-oldest");
+                if st != "unknown" && !violated {
+                    violated = true;
+                    out.violation("C18.R3", "C18|evicted-transaction-still-visible", json!({"scenario": desc, "status": st}), k);
+                }
+            }
+        }
+        // relay: connect / reconnect (same peer id, new session) / tick.  The tick is only driven when no opened
+        // session would take the close_protocol / open_protocol branch, which needs tentacle's ServiceControl.
+        if !model.is_empty() && rng.chance(2, 3) {
+            let which = rng.pick_idx(relay_peers.len());
+            let unannounced = |which: usize, announced: &HashMap<(usize, Byte32), u32>| model.iter().any(|(h, _)| !announced.contains_key(&(which, h.clone())));
+            let op = rng.below(4);
+            let r: Result<(), Unwound> = if sessions[which].is_none() {
+                // open a session (fresh session id, same peer id)
+                next_session += 1;
+                let pi = PeerIndex::new(500 + next_session);
+                let addr: MultiAddr = format!("/ip4/127.0.0.1/tcp/{}/p2p/{}", 9000 + which, relay_peers[which].to_base58()).parse().expect("multiaddr");
+                w.c().log.set_peer(pi, Peer::new(pi, SessionType::Outbound, addr, false));
+                let had_new = unannounced(which, &announced);
+                sessions[which] = Some((pi, had_new));
+                out.cell(&format!("relay|connect|new={}", had_new));
+                let c = w.cm();
+                let (rt, relay2, relay3, nc2, nc3) = (&c.rt, &mut c.relay2, &mut c.relay3, c.nc_relay2.clone(), c.nc_relay3.clone());
+                guarded(|| {
+                    rt.block_on(relay2.connected(nc2.clone(), pi, "2"));
+                    rt.block_on(relay3.connected(nc3.clone(), pi, "3"));
+                })
+            } else if op == 0 {
+                let (pi, _) = sessions[which].take().unwrap();
+                out.cell("relay|disconnect");
+                let c = w.cm();
+                let (rt, relay2, relay3, nc2, nc3) = (&c.rt, &mut c.relay2, &mut c.relay3, c.nc_relay2.clone(), c.nc_relay3.clone());
+                guarded(|| {
+                    rt.block_on(relay2.disconnected(nc2.clone(), pi));
+                    rt.block_on(relay3.disconnected(nc3.clone(), pi));
+                })
+            } else {
+                // tick: safe when every open session either was sent something already or has something new
+                let safe = sessions.iter().enumerate().all(|(i, s)| match s { None => true, Some((_, sent)) => *sent || unannounced(i, &announced) }) && sessions.iter().any(|s| s.is_some());
+                if safe {
+                    out.cell("relay|tick");
+                    for (i, s) in sessions.iter_mut().enumerate() {
+                        if let Some((_, sent)) = s {
+                            if unannounced(i, &announced) {
+                                *sent = true;
+                            }
+                        }
+                    }
+                    let c = w.cm();
+                    let (rt, relay2, relay3, nc2, nc3) = (&c.rt, &mut c.relay2, &mut c.relay3, c.nc_relay2.clone(), c.nc_relay3.clone());
+                    let v3 = active_v3;
+                    guarded(|| match v3 {
+                        Some(true) => rt.block_on(relay3.notify(nc3.clone(), 0)),
+                        Some(false) => rt.block_on(relay2.notify(nc2.clone(), 0)),
+                        None => {}
+                    })
+                } else {
+                    Ok(())
+                }
+            };
+            if let Err(Unwound::Panic(p)) = r {
+                violated = true;
+                out.violation("C18.R4", &p.signature("C18", "relay"), json!({"scenario": desc, "panic": p.message, "at": p.location}), k);
+                break;
+            }
+        }
+        // collect relay traffic
+        for s in w.c().log.take_outbox() {
+            if let Some(p) = P::of(s.proto) {
+                if p == P::Relay2 || p == P::Relay3 {
+                    active_v3 = Some(p == P::Relay3);
+                    if let Ok(m) = packed::RelayMessageReader::from_compatible_slice(&s.data) {
+                        if let packed::RelayMessageUnionReader::RelayTransactionHashes(r) = m.to_enum() {
+                            let which = sessions.iter().position(|x| x.map(|(pi, _)| pi == s.peer).unwrap_or(false)).unwrap_or(99);
+                            for hh in r.tx_hashes().iter() {
+                                out.eval(1);
+                                let e = announced.entry((which, hh.to_entity())).or_insert(0);
+                                *e += 1;
+                                if *e > 1 && !violated {
+                                    violated = true;
+                                    out.violation("C18.R4", "C18|hash-announced-twice-to-one-peer", json!({"scenario": desc}), k);
+                                }
+                                if rejected.contains(&hh.to_entity()) && !violated {
+                                    violated = true;
+                                    out.violation("C18.R2", "C18|rejected-transaction-relayed", json!({"scenario": desc}), k);
+                                }
+                                if !model.iter().any(|(x, _)| *x == hh.to_entity()) && !violated {
+                                    violated = true;
+                                    out.violation("C18.R2", "C18|hash-outside-pool-relayed", json!({"scenario": desc}), k);
+                                }
+                                out.cell("relay|announce");
+                            }
+                        }
+                    }
+                }
+            }
+        }
+    }
+    // every pool member that an open, ticked session had not seen was announced to it (bounded no-loss)
+    // GetRelayTransactions: cycles equal to the estimate; unknown / rejected hashes are not served
+    if !w.dead && !violated && !model.is_empty() {
+        let mut ask: Vec<Byte32> = model.iter().take(5).map(|(h, _)| h.clone()).collect();
+        ask.extend(rejected.iter().take(3).cloned());
+        let msg = packed::RelayMessage::new_builder().set(packed::GetRelayTransactions::new_builder().tx_hashes(ask.pack()).build()).build().as_bytes();
+        let pi = PeerIndex::new(499);
+        let _ = w.cm().received(if active_v3 == Some(true) { P::Relay3 } else { P::Relay2 }, pi, msg);
+        for s in w.c().log.take_outbox() {
+            if let Ok(m) = packed::RelayMessageReader::from_compatible_slice(&s.data) {
+                if let packed::RelayMessageUnionReader::RelayTransactions(r) = m.to_enum() {
+                    for t in r.transactions().iter() {
+                        out.eval(1);
+                        let h = t.transaction().to_entity().calc_tx_hash();
+                        let cyc: u64 = t.cycles().unpack();
+                        let want = model.iter().find(|(x, _)| *x == h).map(|(_, c)| *c);
+                        out.cell("relay|serve");
+                        if rejected.contains(&h) || want.is_none() {
+                            out.violation("C18.R2", "C18|unknown-or-rejected-transaction-served", json!({"scenario": desc}), k);
+                        } else if want != Some(cyc) {
+                            out.violation("C18.R5", "C18|relayed-cycles-differ-from-estimate", json!({"scenario": desc, "relayed": cyc, "estimated": want}), k);
+                        }
+                    }
+                }
+            }
+        }
+    }
+    out.count("scenarios", 1);
+    out.sample("scenario", 2, || json!({"scenario": desc, "accepted": model.len(), "rejected": rejected.len()}));
+    let _: Option<(HashSet<u8>, P2pBytes, Value)> = None;
+    let _ = hex(&[]);
+    w.close();
 }
